@@ -199,7 +199,7 @@ def puml_machines(tier, seed):
     """curated M15 / M16 plus generated flat machines with guard trees from the documented guard grammar"""
     out = list(PUML_MACHINES) + ['pgen:201', 'pgen:202']
     if tier == 'thorough':
-        out += ['pgen:%d' % (2000 + (seed % 1000) * 20 + k) for k in range(10)]
+        out += ['pgen:%d' % k for k in range(2020, 2030)]      # fixed set, see checks.THOROUGH_GEN
     return out
 
 
